@@ -80,6 +80,15 @@ Render(id) ==                                        \* id normalised
   \o (IF id.beh # "None" THEN <<Sep("_"), Word(id.beh)>> \o PredToks(id.pred, 1) ELSE <<>>)
 PrintId(id) == Render(Normalize(id))                \* "Print(id)" of the design; the name Print belongs to the TLC module
 
+(* history dimension: a ScenarioID is a mutable object with public fields.  Assigning ONE field the value it has in
+   another id b gives the id below; the printed text of the object is PrintId of THIS record - the specification
+   has no memory of what was printed before.  Only assignments whose result is a valid id with nothing left to
+   default are in the quantifier (an assignment bypasses the constructor). *)
+FieldNames == {"coop", "country", "map", "map_id", "config", "beh", "pred", "ver"}
+After(f, fld, b) == [Normalize(f) EXCEPT ![fld] = Normalize(b)[fld]]
+ValidSet(f, fld, b) == /\ fld \in FieldNames /\ Valid(f) /\ Valid(b)
+                       /\ LET a == After(f, fld, b) IN Valid(a) /\ Normalize(a) = a
+
 (* the id grammar as a nondeterministic automaton over token classes *)
 Match(cls, t) ==
   CASE cls = "C"       -> IsC(t)
